@@ -295,7 +295,7 @@ pub fn run_c09(cx: &Cx) -> PropResult {
         // deduplicated tags (C10's codec and byte model): string ids stay 1, 2, 3 ... whatever objects are numbered
         let strat = (1usize..25)
             .prop_flat_map(|n| (proptest::collection::vec(any::<u32>(), n..=n), proptest::collection::vec(proptest::collection::vec(0..n, 0..3), n..=n), any::<bool>(), any::<u16>(), any::<u8>()))
-            .prop_map(|(labels, edges, th, fault_sel, fault_kind)| crate::props::graphs::GraphCase { g: crate::props::graphs::Graph { labels, edges }, tracked_header: th, tagged: true, sentinel: false, fault_sel, fault_kind });
+            .prop_map(|(labels, edges, th, fault_sel, fault_kind)| crate::props::graphs::GraphCase { g: crate::props::graphs::Graph { labels, edges }, tracked_header: th, tagged: true, sentinel: false, seq: false, fault_sel, fault_kind });
         drive(tag_seed(derive_seed(cx.seed, cx.prop, shard as u64, 5), 5), &strat, per_shard / 20, acc, &|c: &crate::props::graphs::GraphCase| to_json(&json!({"Graph": c})), &mut |c, a, r| {
             match crate::props::graphs::check_graph(c, &mut Acc::new(), false) {
                 Verdict::Fail(e) => Verdict::Fail(format!("deduplicated strings beside tracked objects: {e}")),
